@@ -165,6 +165,13 @@ def check(run):
         for ob, ok, msg in res:
             if not ok:
                 run.violation(rule, ob["key"], "%s: %s" % (ob["desc"], msg), "include/yorel/yomm2/templates.hpp")
+    # what one add_definition<Container> object does when it is constructed: one registration per (method, function)
+    from .. import crules
+    r4 = "C20-record"
+    run.rule(r4, "add_function registers through a record of its own (method, function) pair and pushes it exactly when it is not registered yet", floor=6)
+    ast, _ = crules.unit(run, ndebug=True)
+    crules.record_rules(run, r4, ast)
+    crules.idem_rules(run, r4, ast)
     run.assumptions += ["clang 14's type checker (template instantiation, std::is_same) is trusted",
                         "that constructing aggregate<...> (a std::tuple of registration objects) runs one registration per element is a language guarantee; "
                         "which definitions are found in the method's catalog at run time is not observed"]
